@@ -40,6 +40,8 @@ EXC_TABLE = {
     7: lambda: pjrpc.exceptions.DeserializationError('S3CR3T7'),
     8: lambda: pjrpc.exceptions.IdentityError('S3CR3T8'),
     9: lambda: BadReprError('S3CR3T9'),
+    # a TypeError from INSIDE the body that reads like the interpreter's argument-mismatch message (the body called a helper wrongly)
+    10: lambda: TypeError("S3CR3T10_helper() missing 1 required positional argument: 'x'"),
 }
 EXC_NAMES = ['ValueError', 'KeyError', 'TypeError', 'AssertionError', 'RuntimeError', 'MyCustomError', 'Traceback', 'S3CR3T']
 
@@ -114,7 +116,8 @@ def make_callable(m, is_async, log):
     elif body[0] == 'ret':
         lines.append('    return HBODY_[1]')
     elif body[0] == 'rpc':
-        lines.append('    raise pjrpc.exceptions.JsonRpcError(code=HBODY_[1], message=HBODY_[2], data=(UNSET if HBODY_[3] == "<unset>" else HBODY_[3]))')
+        # optional 5th component: the library's typed class the error is raised as, with the code / message overridden per instance
+        lines.append('    raise getattr(pjrpc.exceptions, HBODY_[4] if len(HBODY_) > 4 else "JsonRpcError")(code=HBODY_[1], message=HBODY_[2], data=(UNSET if HBODY_[3] == "<unset>" else HBODY_[3]))')
     elif body[0] == 'rpcargs':
         # ONE long-lived error object per method (a module-level constant in user code): its fields are set from the
         # arguments of the call and it is raised again
